@@ -104,7 +104,7 @@ def hasCTL (u : Bytes) : Bool := u.any fun b => b < 0x20 || b == 0x7f
 
 /-- The part of `url.Parse`'s error behaviour that the safety argument needs. -/
 def parseChecks (u : Bytes) : Bool :=
-  !hasCTL u &&
+  !hasCTL (beforeHash u) &&      -- url.Parse looks for control bytes in front of the fragment only
   match goScheme u with
   | none => false
   | some (some _) => true
